@@ -3,9 +3,84 @@
 package main
 
 import (
+	"fmt"
+	"time"
+
+	"github.com/google/mtail/internal/metrics"
 	"github.com/google/mtail/internal/runtime/code"
+	"github.com/google/mtail/internal/zzverif/gen"
 	"github.com/google/mtail/internal/zzverif/vlib"
 )
 
-// dumpCase: tie (1), filled in by the codegen correspondence.
-func dumpCase(out *vlib.Out, src string, obj *code.Object, rc runCase) {}
+var opNames = map[code.Opcode]string{
+	code.Bad: "Bad", code.Stop: "Stop", code.Match: "Match", code.Smatch: "Smatch", code.Cmp: "Cmp",
+	code.Jnm: "Jnm", code.Jm: "Jm", code.Jmp: "Jmp", code.Inc: "Inc", code.Dec: "Dec",
+	code.Strptime: "Strptime", code.Timestamp: "Timestamp", code.Settime: "Settime", code.Push: "Push",
+	code.Capref: "Capref", code.Str: "Str", code.Sset: "Sset", code.Iset: "Iset", code.Iadd: "Iadd",
+	code.Isub: "Isub", code.Imul: "Imul", code.Idiv: "Idiv", code.Imod: "Imod", code.Ipow: "Ipow",
+	code.And: "And", code.Or: "Or", code.Xor: "Xor", code.Neg: "Neg", code.Not: "Not", code.Shl: "Shl",
+	code.Shr: "Shr", code.Mload: "Mload", code.Dload: "Dload", code.Iget: "Iget", code.Fget: "Fget",
+	code.Sget: "Sget", code.Tolower: "Tolower", code.Length: "Length", code.Cat: "Cat",
+	code.Setmatched: "Setmatched", code.Otherwise: "Otherwise", code.Del: "Del", code.Expire: "Expire",
+	code.Fadd: "Fadd", code.Fsub: "Fsub", code.Fmul: "Fmul", code.Fdiv: "Fdiv", code.Fmod: "Fmod",
+	code.Fpow: "Fpow", code.Fset: "Fset", code.Getfilename: "Getfilename", code.I2f: "I2f", code.S2i: "S2i",
+	code.S2f: "S2f", code.I2s: "I2s", code.F2s: "F2s", code.Icmp: "Icmp", code.Fcmp: "Fcmp",
+	code.Scmp: "Scmp", code.Subst: "Subst", code.Rsubst: "Rsubst",
+}
+
+func operandCoq(o interface{}) string {
+	switch v := o.(type) {
+	case nil:
+		return "ONil"
+	case int:
+		return vlib.App("OInt", vlib.Z(int64(v)))
+	case int64:
+		return vlib.App("OI64", vlib.Z(v))
+	case float64:
+		return vlib.App("OF64", vlib.N(gen.FloatBits(v)))
+	case bool:
+		return vlib.App("OBool", vlib.Bool(v))
+	case time.Duration:
+		return vlib.App("ODur", vlib.Z(int64(v)))
+	}
+	return fmt.Sprintf("(OInt (-%d))%%Z", 424242) // an operand type codegen.go never emits today
+}
+
+func instrCoq(i code.Instr) string {
+	name, ok := opNames[i.Opcode]
+	if !ok {
+		name = vlib.App("OpUnknown", vlib.Z(int64(i.Opcode)))
+	}
+	return vlib.App("mkinstr", name, operandCoq(i.Operand))
+}
+
+// dumpCase: tie (1).  The model code generator (Lang/Codegen.v) applied to the
+// intended tree must give exactly the object the real parser + checker +
+// codegen produced from the source text: instructions with operands, string
+// and regexp tables, metric kinds / types / arities.
+func dumpCase(out *vlib.Out, core *gen.Core, obj *code.Object, rc runCase) {
+	var is, ss, rs, ms []string
+	for _, i := range obj.Program {
+		is = append(is, instrCoq(i))
+	}
+	for _, s := range obj.Strings {
+		ss = append(ss, gen.CoqBytes(s))
+	}
+	for _, r := range obj.Regexps {
+		rs = append(rs, gen.CoqBytes(r.String()))
+	}
+	for _, m := range obj.Metrics {
+		k := map[metrics.Kind]string{metrics.Counter: "KCounter", metrics.Gauge: "KGauge", metrics.Timer: "KTimer",
+			metrics.Text: "KText", metrics.Histogram: "KHistogram"}[m.Kind]
+		t := map[metrics.Type]string{metrics.Int: "TyInt", metrics.Float: "TyFloat", metrics.String: "TyString",
+			metrics.Buckets: "TyBuckets"}[m.Type]
+		ms = append(ms, tup(k, t, vlib.Nat(len(m.Keys))))
+	}
+	id := out.NextID()
+	c := rc
+	c.Kind = "codegen"
+	c.Final = nil
+	out.Add(vlib.App("CGen", vlib.N(id), core.Coq(), vlib.List(is), vlib.List(ss), vlib.List(rs), vlib.List(ms)),
+		c, len(obj.Program) > 3)
+	out.Count("tie/codegen")
+}
